@@ -50,6 +50,9 @@ pub enum IBatch {
     Count,
     Last,
     Nth(usize),
+    Skip(usize),
+    StepBy(usize),
+    ByRefTake(usize),
 }
 
 const U: f64 = 1.1102230246251565e-16; // 2^-53
@@ -605,6 +608,19 @@ where
                             }
                             (v, None, n.saturating_sub(k))
                         }
+                        IBatch::Skip(k) => (it.skip(k).enumerate().map(|(j, s)| (k + j, s)).collect(), None, n.saturating_sub(k)),
+                        IBatch::StepBy(k) => {
+                            let k = k.max(1);
+                            (it.step_by(k).enumerate().map(|(j, s)| (j * k, s)).collect(), None, n.div_ceil(k))
+                        }
+                        IBatch::ByRefTake(k) => {
+                            let mut v: Vec<(usize, Segment<T::IntegralOf>)> = it.by_ref().take(k).enumerate().collect();
+                            let taken = v.len();
+                            for (j, s) in it.enumerate() {
+                                v.push((taken + j, s));
+                            }
+                            (v, None, n)
+                        }
                     }
                 }};
             }
@@ -990,11 +1006,14 @@ fn gen_scn(rng: &mut Rng, _tier: Tier) -> IntegScn {
     let nb = *rng.pick(&[0usize, 0, 0, 1, 2]);
     let batches = (0..nb)
         .map(|_| {
-            let mode = match rng.below(5) {
+            let mode = match rng.below(8) {
                 0 => IBatch::Fold,
                 1 => IBatch::Count,
                 2 => IBatch::Last,
-                _ => IBatch::Nth(rng.usize_in(0, n)),
+                3 | 4 => IBatch::Nth(rng.usize_in(0, n)),
+                5 => IBatch::Skip(rng.usize_in(0, n)),
+                6 => IBatch::StepBy(rng.usize_in(1, 4)),
+                _ => IBatch::ByRefTake(rng.usize_in(0, n)),
             };
             (rng.chance(1, 2), mode)
         })
@@ -1138,7 +1157,7 @@ fn to_json(scn: &IntegScn) -> Value {
         "samples": scn.samples.iter().map(|&(i, t)| json!({"piece": i, "t": fj(t)})).collect::<Vec<_>>(),
         "batches": scn.batches.iter().map(|&(v, m)| json!({
             "iterator": if v { "integral_iter" } else { "integral_iter_ref" },
-            "consume_with": match m { IBatch::Fold => json!("fold"), IBatch::Count => json!("count"), IBatch::Last => json!("last"), IBatch::Nth(k) => json!({"nth": k}) },
+            "consume_with": match m { IBatch::Fold => json!("fold"), IBatch::Count => json!("count"), IBatch::Last => json!("last"), IBatch::Nth(k) => json!({"nth": k}), IBatch::Skip(k) => json!({"skip": k}), IBatch::StepBy(k) => json!({"step_by": k}), IBatch::ByRefTake(k) => json!({"by_ref_take": k}) },
         })).collect::<Vec<_>>(),
     })
 }
@@ -1197,6 +1216,9 @@ fn from_json(v: &Value) -> Result<IntegScn, String> {
                         "last" => IBatch::Last,
                         x => return Err(format!("bad consume_with {x}")),
                     },
+                    Some(o) if o.get("skip").is_some() => IBatch::Skip(jusize(o, "skip")?),
+                    Some(o) if o.get("step_by").is_some() => IBatch::StepBy(jusize(o, "step_by")?.max(1)),
+                    Some(o) if o.get("by_ref_take").is_some() => IBatch::ByRefTake(jusize(o, "by_ref_take")?),
                     Some(o) => IBatch::Nth(jusize(o, "nth")?),
                     None => return Err("missing consume_with".to_string()),
                 };
